@@ -24,6 +24,8 @@ if [ $rc -eq 1 ] && ! grep -q '^VIOLATION property=' "$out/log"; then rc=2; fi
 if [ $rc -eq 1 ]; then echo "MUTANT $name on $prop: DETECTED ($(grep -m1 -E 'failure in|REPLAY-FAIL|process crash' "$out/log" | cut -c1-220))";
 elif [ $rc -eq 0 ]; then echo "MUTANT $name on $prop: MISSED"; else echo "MUTANT $name on $prop: INCONCLUSIVE rc=$rc"; tail -5 "$out/log"; fi
 git -C /repo worktree remove --force "$wt"
+# SAVE_REPLAY=<file name>: keep the (first) failing case as a regression replay of the property
+if [ -n "${SAVE_REPLAY:-}" ] && [ $rc -eq 1 ]; then f=$(ls "$out"/replays/$prop/fail-*.json 2>/dev/null | head -1); [ -n "$f" ] && cp "$f" "/verif/replays/$prop/$SAVE_REPLAY" && echo "saved replays/$prop/$SAVE_REPLAY"; fi
 [ -n "${KEEP:-}" ] && cp "$out/log" /tmp/mutlog-$name.txt; rm -rf "$out" /verif/.work/mut-$name-$$
 
 exit 0
